@@ -134,9 +134,13 @@ func DrvMain(a *Args) int {
 	}
 	rep := &Report{Prop: a.Prop, Flavor: a.Flavor, Mode: a.Mode, Tier: a.Tier, Seed: a.Seed, From: a.From, Cases: a.Cases, Cov: NewCov(), Hooks: HooksOn}
 	seen := map[uint64]bool{}
+	var prog *os.File
+	if a.Out != "" {
+		prog, _ = os.Create(a.Out + ".progress")
+	}
 	for i := a.From; i < a.From+a.Cases; i++ {
-		if a.Out != "" {
-			os.WriteFile(a.Out+".progress", []byte(strconv.Itoa(i)), 0o644)
+		if prog != nil {
+			prog.WriteAt([]byte(fmt.Sprintf("%-12s", strconv.Itoa(i))), 0)
 		}
 		c := runCase(a, fn, i, len(rep.Samples) < 2)
 		rep.Evaluations++
